@@ -31,10 +31,24 @@ void ObservableRegistry::AddCallback(opentelemetry::metrics::ObservableCallbackP
                                      void *state,
                                      opentelemetry::metrics::ObservableInstrument *instrument)
 {
-  // TBD - Check if existing
+  std::lock_guard<std::mutex> lock_guard{callbacks_m_};
+  // A (callback, state) pair is registered on an instrument at most once: a second registration
+  // would invoke the pair twice per collection, and the second report of the same totals would
+  // replace the difference computed from the first by zero (see AsyncMetricStorage::Record).
+  auto existing = std::find_if(
+      callbacks_.begin(), callbacks_.end(),
+      [callback, state, instrument](const std::unique_ptr<ObservableCallbackRecord> &record) {
+        return record->callback == callback && record->state == state &&
+               record->instrument == instrument;
+      });
+  if (existing != callbacks_.end())
+  {
+    OTEL_INTERNAL_LOG_WARN("[ObservableRegistry::AddCallback] - The callback is already registered "
+                           << "for this instrument with the same state, ignoring.");
+    return;
+  }
   std::unique_ptr<ObservableCallbackRecord> record(
       new ObservableCallbackRecord{callback, state, instrument});
-  std::lock_guard<std::mutex> lock_guard{callbacks_m_};
   callbacks_.push_back(std::move(record));
 }
 
